@@ -657,7 +657,10 @@ pub fn check_main(sc: &dyn Scenario, opt: &CheckOptions) -> i32 {
     let mut exit = 0;
     let mut known_seen = vec![];
     let mut new_violations = 0;
-    let replay_dir = format!("{}/replays", opt.verif_root);
+    // VERIF_OUT_DIR redirects replays and evidence (used when a check is pointed at a deliberately
+    // broken tree, so that the committed evidence keeps describing the real one)
+    let out_root = std::env::var("VERIF_OUT_DIR").unwrap_or_else(|_| opt.verif_root.clone());
+    let replay_dir = format!("{}/replays", out_root);
     let _ = std::fs::create_dir_all(&replay_dir);
     let mut sig_counts: BTreeMap<String, u64> = BTreeMap::new();
     for v in &out.violations {
@@ -747,8 +750,10 @@ pub fn check_main(sc: &dyn Scenario, opt: &CheckOptions) -> i32 {
             "distinct_nontrivial": s.nontrivial.len(),
             "rule": meta.rule,
             "samples": s.samples,
-            "exhaustive": exhaustive_n > 0 && s.exhaustive_done >= exhaustive_n,
-            "small_space": {"size": exhaustive_n, "completed": s.exhaustive_done},
+            // true only when the run was nothing but the complete enumeration of the declared finite space;
+            // an enumerated prefix followed by sampling is described by small_space instead
+            "exhaustive": exhaustive_n > 0 && s.exhaustive_done >= exhaustive_n && s.evaluations <= exhaustive_n,
+            "small_space": {"size": exhaustive_n, "completed": s.exhaustive_done, "enumerated_completely": exhaustive_n > 0 && s.exhaustive_done >= exhaustive_n},
             "discarded_runs": s.discarded,
             "runs_per_hour": if hours > 0.0 { (s.evaluations as f64 / hours) as u64 } else { 0 },
             "seeds_per_hour": if hours > 0.0 { (s.evaluations as f64 / hours) as u64 } else { 0 },
@@ -767,7 +772,7 @@ pub fn check_main(sc: &dyn Scenario, opt: &CheckOptions) -> i32 {
             "workers": opt.workers,
         }
     });
-    let evdir = format!("{}/evidence", opt.verif_root);
+    let evdir = format!("{}/evidence", out_root);
     let _ = std::fs::create_dir_all(&evdir);
     std::fs::write(
         format!("{}/{}.json", evdir, sc.id()),
